@@ -137,6 +137,13 @@ func genC16(g *Gen, tier string, idx int) *wire.Scenario {
 	if g.P(30) {
 		env.Multiline = "backslash"
 	}
+	// configuration variables that touch the selection machinery the kill commands go through
+	if g.P(30) {
+		env.Inputrc = append(env.Inputrc, "set blink-matching-paren on")
+	}
+	if g.P(10) {
+		env.Inputrc = append(env.Inputrc, "set mark-modified-lines on")
+	}
 	env.Binds = g.Cat.Extra
 	script, _ := g.setupBuffer(&env, mode, g.P(25))
 	x := c16X{Vi: vi}
